@@ -73,8 +73,19 @@ func c08Scalar(k []byte) []byte {
 	return append(make([]byte, 32-len(k)), k...)
 }
 
+// Diffie-Hellman facts of the prime-order group registered by a harness: [d]([k]G) = [k]([d]G); the model
+// returns the same uninterpreted value for both sides
+var c08DH [][2][]byte // {d, k}
+
 func (c *c08Curve) ScalarMult(x1, y1 *big.Int, k []byte) (*big.Int, *big.Int) {
 	a, b, s := c08Fix(x1), c08Fix(y1), c08Scalar(k)
+	for _, f := range c08DH {
+		d, kk := f[0], f[1]
+		if verifSameBytes(a, verifUF("G.x", 32, kk)) && verifSameBytes(b, verifUF("G.y", 32, kk)) && verifSameBytes(s, d) {
+			a, b, s = verifUF("G.x", 32, d), verifUF("G.y", 32, d), kk
+			break
+		}
+	}
 	inf := x1.Sign() == 0 && y1.Sign() == 0
 	mx, my := verifUF("M.x", 32, a, b, s), verifUF("M.y", 32, a, b, s)
 	if c08MLead == 1 && !inf {
